@@ -1,6 +1,6 @@
 (* C10 property theorems. Nothing but statements closed by `exact lemma` and Print Assumptions, plus Examples. *)
 From Coq Require Import NArith List Bool.
-From OG Require Import C10.Model C10.Proofs C10.Regex C10.RegexProofs C10.RegexAlt C10.RegexSearch C10.FlushClear C10.ListingCond C10.Prune.
+From OG Require Import C10.Model C10.Proofs C10.Regex C10.RegexProofs C10.RegexSem C10.RegexNew C10.RegexAlt C10.RegexSearch C10.FlushClear C10.ListingCond C10.Prune.
 Import ListNotations.
 Open Scope N_scope.
 
@@ -221,3 +221,46 @@ Example C10_prune_example :
   plan_ids am L 1 (1, Eq, 1) [] [(2, Neq, 7)] = [101] /\ plan_ids am L 1 (1, Eq, 1) [(2, Neq, 7)] [] = [101] /\
   bruteforce am L 1 (conj (1, Eq, 1) [(2, Neq, 7)]) = [101].
 Proof. vm_compute. repeat split. Qed.
+
+(* ---- the matcher is a match relation. [sem w r i j] is the relational semantics of regular expressions (r matches the
+   piece w[i..j) of the subject w), defined by recursion on the syntax tree with the usual closure for repetition; the
+   executable matcher computes exactly it. What is compared with Go regexp on every run is therefore a proved matcher. ---- *)
+Theorem C10_matcher_is_the_match_relation : forall w r i j, (i <= length w)%nat -> (In j (ends w r i) <-> sem w r i j).
+Proof. exact ends_sem. Qed.
+Theorem C10_unanchored_is_match_somewhere : forall r w, unanch r w = true <-> exists i j, (i <= length w)%nat /\ sem w r i j.
+Proof. exact unanch_iff. Qed.
+Print Assumptions C10_matcher_is_the_match_relation.
+Print Assumptions C10_unanchored_is_match_somewhere.
+
+(* getOrValuesExt: whenever it yields a list (alternations, classes, literals, captures, concatenations, up to 20 values)
+   the list is exactly the language of the expression *)
+Theorem C10_or_values_exact : forall r, or_values r <> [] ->
+  forall w i j, sem w r i j <-> exists v, In v (or_values r) /\ litmatch w v i j.
+Proof. exact or_values_sem. Qed.
+Print Assumptions C10_or_values_exact.
+
+(* TODAY's translation of a regex tag filter (since /repo f7a71a4: exact-value lookups of the marshaled values for ^X$, literal
+   prefix for ^lit.., scan with the compiled expression on the unescaped value, match-everything, series without the tag when
+   the expression matches the empty string) selects, for EVERY expression, stored value and the absent tag, exactly what the
+   language's unanchored matching selects ... *)
+Theorem C10_translation_exact : forall r v, new_match r v = repaired_match r v.
+Proof. exact new_match_exact. Qed.
+(* ... hence the predicate search with it is brute force for every predicate tree *)
+Theorem C10_search_with_translation_is_bruteforce : forall pats strs L m e, wfL L -> expr_ok e ->
+  forall id, In id (search (am_new pats strs) (postings L) m e) <-> In id (bruteforce (am_repaired pats strs) L m e).
+Proof. exact new_search_exact. Qed.
+Print Assumptions C10_translation_exact.
+Print Assumptions C10_search_with_translation_is_bruteforce.
+
+Example C10_translation_example :
+  (* ^(web|db)$ takes the lookups, ^web-.* the prefix, [wd] the scan; "\x01" is matched unescaped *)
+  anchored_or_values (RConcat [RBeginText; RCapture (RAlt [RLit false [119; 101; 98]; RLit false [100; 98]]); REndText]) = [[119; 101; 98]; [100; 98]] /\
+  anchored_literal_prefix (RConcat [RBeginText; RLit false [119; 101; 98; 45]; RStar RAnyNL]) = [119; 101; 98; 45]%N /\
+  new_match (RClass [(100, 100); (119, 119)]%N) (Some [119; 101; 98]%N) = true /\
+  new_match (RPlus (RClass [(48, 57)]%N)) (Some [1]%N) = false /\
+  sem [119; 101; 98]%N (RStar RAnyNL) 0%nat 3%nat.
+Proof.
+  repeat split; try reflexivity.
+  apply (star_step _ 0 1 3)%nat; [exists 119%N; auto |]. apply (star_step _ 1 2 3)%nat; [exists 101%N; auto |].
+  apply (star_step _ 2 3 3)%nat; [exists 98%N; auto | constructor].
+Qed.
